@@ -41,15 +41,20 @@ func runFindContent(o *Out, r *rand.Rand, thorough bool, _ []string) {
 		}
 		known := fillTable(nd, r, count, round%2 == 0)
 		stranger := signRecPad(keyFromSeed(r), net.IP{34, 99, 1, 1}, 4000, 1, 0)
+		storedBefore := map[string][2]int{}
 		for c := 0; c < perRound; c++ {
 			key := make([]byte, 1+r.Intn(40))
 			r.Read(key)
 			idh := sha256.Sum256(key)
 			cid := idh[:]
-			stored := -1
-			if r.Intn(5) < 2 {
+			stored, gseed := -1, c
+			if prev, seen := storedBefore[string(key)]; seen {
+				// a short key drawn again: what the node holds is what was put the first time
+				stored, gseed = prev[0], prev[1]
+			} else if r.Intn(5) < 2 {
 				stored = fcSizes[r.Intn(len(fcSizes))]
 				_ = nd.store.Put(key, cid, genBytes(stored, c))
+				storedBefore[string(key)] = [2]int{stored, c}
 			}
 			before := viewTable(nd, known)
 			closest := nd.p.VerifFindNodesCloseToContent(cid, 32)
@@ -102,7 +107,7 @@ func runFindContent(o *Out, r *rand.Rand, thorough bool, _ []string) {
 					o.Case(input, "undecodable")
 					continue
 				}
-				o.Case(input, fmt.Sprintf("raw=%d same=%d total=%d", len(m.Content), b2i(bytes.Equal(m.Content, genBytes(stored, c))), len(resp)))
+				o.Case(input, fmt.Sprintf("raw=%d same=%d total=%d", len(m.Content), b2i(bytes.Equal(m.Content, genBytes(stored, gseed))), len(resp)))
 			case portalwire.ContentConnIdSelector:
 				m := &portalwire.ConnectionId{}
 				if m.UnmarshalSSZ(resp[2:]) != nil {
